@@ -421,6 +421,14 @@ func checkSilenceLimitsBeforeMutation(o *Ob, f *silSetFacts) {
 			o.Guarded(m, "count-before-mutation|"+calleeName(m.Common()), "the silence count limit must have been checked (and passed) before "+calleeName(m.Common())+" on the create path", noLimit, limOff, fits)
 		}
 	}
+	// the size that is checked is the size that is stored: the silence is not modified between the check and the store
+	for _, c := range e.Calls(fn, "(*am/silence.Silences).checkSizeLimits") {
+		o.Site(c, "size check")
+		o.NeverAfter(c, "size-then-modified", "the silence is modified after its size was checked (the stored/gossiped encoding can exceed the limit that was checked)", func(in ssa.Instruction) bool {
+			st, ok := in.(*ssa.Store)
+			return ok && strings.HasPrefix(e.X(fn, st.Addr), "p1.")
+		}, f.mutating)
+	}
 	// the rejected count check returns an error without mutation
 	r := (&Walk{Fn: fn, Cut: e.CutContradicting(fits.Neg(), noLimit.Neg(), limOff.Neg())}).FromEntry()
 	for _, m := range append(append([]ssa.CallInstruction{}, f.expCalls...), f.creSet) {
